@@ -30,6 +30,9 @@
 #include <pistache/cookie.h>
 #include <pistache/client.h>
 #include <pistache/peer.h>
+#include <pistache/transport.h>
+#include <pistache/stream.h>
+#include <pistache/verif_hooks.h>
 
 #include <sys/socket.h>
 #include <netinet/in.h>
@@ -168,13 +171,82 @@ void lifeLog(const std::shared_ptr<Tcp::Peer>& peer, char e)
     std::lock_guard<std::mutex> g(LIFE.m); LIFE.ev.emplace_back(port, e);
 }
 
+// ---- C06/C07: scripted socket outcomes and raw writes issued by the handler ----
+struct WriteSpec { bool file; size_t size; };
+struct WrState {
+    std::mutex m; std::condition_variable cv;
+    bool active = false;                 // the handler issues raw writes instead of serving HTTP
+    bool foreign = false;                // writes are issued from another thread
+    std::vector<WriteSpec> writes;
+    std::vector<std::string> script;     // per socket write call: "B" (would block) or a cap in bytes; then unlimited
+    size_t next = 0;
+    int targetFd = -1;
+    std::vector<std::string> calls;      // what the transport asked for and what it got
+    std::vector<std::string> promises;   // pending | ok:<n> | rej
+    std::vector<int> settles;            // how often each promise was settled
+    int issued = 0;
+    std::string dir;
+    bool holdBlocked = false;            // C07: count attempts only
+    long attempts = 0;
+} WR;
+
+unsigned char patternByte(size_t w, size_t p) { return static_cast<unsigned char>((w * 31 + p * 7 + (p >> 8)) & 0xff); }
+
+bool writeHookFn(int fd, size_t len, size_t* allowed, int* err)
+{
+    std::lock_guard<std::mutex> g(WR.m);
+    if (fd != WR.targetFd) return true;
+    ++WR.attempts;
+    if (WR.holdBlocked) return true;
+    if (WR.next < WR.script.size()) {
+        const std::string& o = WR.script[WR.next++];
+        if (o == "B") { WR.calls.push_back(std::to_string(len) + ":B"); *err = EAGAIN; return false; }
+        size_t cap = strtoul(o.c_str(), nullptr, 10);
+        if (cap < *allowed) *allowed = cap;
+    }
+    WR.calls.push_back(std::to_string(len) + ":" + std::to_string(*allowed));
+    return true;
+}
+
 class ScriptHandler : public Http::Handler
 {
 public:
     HTTP_PROTOTYPE(ScriptHandler)
 
     void onConnection(const std::shared_ptr<Tcp::Peer>& peer) override { lifeLog(peer, 'C'); Http::Handler::onConnection(peer); }
-    void onInput(const char* buffer, size_t len, const std::shared_ptr<Tcp::Peer>& peer) override { lifeLog(peer, 'I'); Http::Handler::onInput(buffer, len, peer); }
+    void onInput(const char* buffer, size_t len, const std::shared_ptr<Tcp::Peer>& peer) override
+    {
+        lifeLog(peer, 'I');
+        bool raw; { std::lock_guard<std::mutex> g(WR.m); raw = WR.active && len >= 2 && buffer[0] == 'g' && buffer[1] == 'o'; }
+        if (raw) { issueWrites(peer); return; }
+        Http::Handler::onInput(buffer, len, peer);
+    }
+
+    void issueWrites(const std::shared_ptr<Tcp::Peer>& peer)
+    {
+        Tcp::Transport* tr = transport(); int fd = peer->fd();
+        std::vector<WriteSpec> ws; bool foreign; std::string dir;
+        { std::lock_guard<std::mutex> g(WR.m); WR.targetFd = fd; ws = WR.writes; foreign = WR.foreign; dir = WR.dir;
+          WR.promises.assign(ws.size(), "pending"); WR.settles.assign(ws.size(), 0); }
+        auto doAll = [tr, fd, ws, dir] {
+            for (size_t i = 0; i < ws.size(); ++i) {
+                std::string data(ws[i].size, '\0');
+                for (size_t p = 0; p < data.size(); ++p) data[p] = static_cast<char>(patternByte(i, p));
+                auto onOk = [i](ssize_t n) { std::lock_guard<std::mutex> g(WR.m); WR.promises[i] = "ok:" + std::to_string(n); ++WR.settles[i]; WR.cv.notify_all(); };
+                auto onRej = [i](std::exception_ptr) { std::lock_guard<std::mutex> g(WR.m); WR.promises[i] = "rej"; ++WR.settles[i]; WR.cv.notify_all(); };
+                if (ws[i].file) {
+                    std::string path = dir + "/wr-" + std::to_string(getpid()) + "-" + std::to_string(i) + ".bin";
+                    { FILE* f = fopen(path.c_str(), "wb"); if (f) { fwrite(data.data(), 1, data.size(), f); fclose(f); } }
+                    tr->asyncWrite(fd, FileBuffer(path)).then(onOk, onRej);
+                    ::unlink(path.c_str());
+                } else {
+                    tr->asyncWrite(fd, RawBuffer(data, data.size())).then(onOk, onRej);
+                }
+            }
+            std::lock_guard<std::mutex> g(WR.m); WR.issued = 1; WR.cv.notify_all();
+        };
+        if (foreign) std::thread(doAll).detach(); else doAll();
+    }
     void onDisconnection(const std::shared_ptr<Tcp::Peer>& peer) override { lifeLog(peer, 'D'); Http::Handler::onDisconnection(peer); }
 
     void onRequest(const Http::Request& req, Http::ResponseWriter response) override
@@ -646,6 +718,132 @@ std::string opLife(const std::vector<std::string>& w)
     return "conns=" + out + " fds=" + std::to_string(after - base) + " serve=" + std::to_string(ok);
 }
 
+std::string selfDir()
+{
+    char buf[4096]; ssize_t n = ::readlink("/proc/self/exe", buf, sizeof buf - 1); if (n <= 0) return ".";
+    buf[n] = 0; std::string s(buf); size_t p = s.rfind('/'); return p == std::string::npos ? "." : s.substr(0, p);
+}
+
+// wr <L|F> <writes: m<size>|f<size>,...> <socket script: B|<cap>,...|->
+std::string opWr(const std::vector<std::string>& w)
+{
+    if (w.size() != 4) return "bad-op";
+    Cfg c; uint16_t port = ensureEndpoint(c);
+    std::vector<WriteSpec> ws; size_t total = 0;
+    for (auto& t : split(w[2], ',')) { if (t.size() < 2) return "bad-op"; WriteSpec x { t[0] == 'f', strtoul(t.c_str() + 1, nullptr, 10) }; ws.push_back(x); total += x.size; }
+    {
+        std::lock_guard<std::mutex> g(WR.m);
+        WR.active = true; WR.foreign = w[1] == "F"; WR.writes = ws; WR.script = split(w[3], ','); WR.next = 0; WR.targetFd = -1;
+        WR.calls.clear(); WR.promises.clear(); WR.settles.clear(); WR.issued = 0; WR.dir = selfDir(); WR.holdBlocked = false; WR.attempts = 0;
+    }
+    Pistache::Verif::writeHook = &writeHookFn;
+    int fd = connectTo(port); if (fd < 0) return "connect-failed";
+    sendAll(fd, "go");
+    std::string got; char tmp[65536];
+    for (;;) {
+        if (got.size() >= total) break;
+        pollfd p { fd, POLLIN, 0 };
+        if (::poll(&p, 1, 600) <= 0) break;
+        ssize_t n = ::recv(fd, tmp, sizeof tmp, 0); if (n <= 0) break;
+        got.append(tmp, static_cast<size_t>(n));
+    }
+    // anything beyond the expected total?
+    { pollfd p { fd, POLLIN, 0 }; if (::poll(&p, 1, 60) > 0) { ssize_t n = ::recv(fd, tmp, sizeof tmp, 0); if (n > 0) got.append(tmp, static_cast<size_t>(n)); } }
+    {
+        std::unique_lock<std::mutex> lk(WR.m);
+        WR.cv.wait_for(lk, std::chrono::milliseconds(400), [&] { if (!WR.issued) return false; for (auto& p : WR.promises) if (p == "pending") return false; return true; });
+    }
+    ::close(fd);
+    std::this_thread::sleep_for(std::chrono::milliseconds(20));
+    Pistache::Verif::writeHook = nullptr;
+    // compare with the concatenation of the buffers in the order issued
+    size_t firstDiff = std::string::npos, pos = 0;
+    for (size_t i = 0; i < ws.size() && firstDiff == std::string::npos; ++i)
+        for (size_t p = 0; p < ws[i].size; ++p, ++pos) {
+            if (pos >= got.size() || static_cast<unsigned char>(got[pos]) != patternByte(i, p)) { firstDiff = pos; break; }
+        }
+    if (firstDiff == std::string::npos && got.size() != total) firstDiff = total;
+    std::string out = "recv=" + std::to_string(got.size()) + " expected=" + std::to_string(total) + " match=" + (firstDiff == std::string::npos ? "1" : "0:" + std::to_string(firstDiff));
+    std::lock_guard<std::mutex> g(WR.m);
+    WR.active = false;
+    out += " promises=";
+    for (size_t i = 0; i < WR.promises.size(); ++i) { if (i) out += ","; out += WR.promises[i] + (WR.settles[i] > 1 ? "x" + std::to_string(WR.settles[i]) : ""); }
+    if (WR.promises.empty()) out += "-";
+    out += " calls=";
+    for (size_t i = 0; i < WR.calls.size(); ++i) { if (i) out += ","; out += WR.calls[i]; }
+    if (WR.calls.empty()) out += "-";
+    return out;
+}
+
+// stall <nwrites> <size> <holdMs> <nB>: connection A (small receive buffer, not reading) asks for nwrites x size bytes, so the
+// server's socket really stops accepting data; meanwhile connection B on the same (single) worker sends nB requests spread over
+// holdMs; then A reads everything.
+std::string opStall(const std::vector<std::string>& w)
+{
+    if (w.size() != 5) return "bad-op";
+    int nw = atoi(w[1].c_str()); size_t size = strtoul(w[2].c_str(), nullptr, 10); int holdMs = atoi(w[3].c_str()); int nB = atoi(w[4].c_str());
+    Cfg c; c.threads = 1; uint16_t port = ensureEndpoint(c);
+    RespScript sc; sc.mode = "send"; sc.code = 200; sc.chunks = { "ok" };
+    { std::lock_guard<std::mutex> g(G.m); G.script = sc; }
+    std::vector<WriteSpec> ws(static_cast<size_t>(nw), WriteSpec { false, size }); size_t total = size * static_cast<size_t>(nw);
+    {
+        std::lock_guard<std::mutex> g(WR.m);
+        WR.active = true; WR.foreign = false; WR.writes = ws; WR.script.clear(); WR.next = 0; WR.targetFd = -1;
+        WR.calls.clear(); WR.promises.clear(); WR.settles.clear(); WR.issued = 0; WR.dir = selfDir(); WR.holdBlocked = true; WR.attempts = 0;
+    }
+    Pistache::Verif::writeHook = &writeHookFn;
+    // A: tiny receive buffer so that the server side fills up quickly
+    int fa = ::socket(AF_INET, SOCK_STREAM, 0); int rcv = 4096; ::setsockopt(fa, SOL_SOCKET, SO_RCVBUF, &rcv, sizeof rcv);
+    sockaddr_in a {}; a.sin_family = AF_INET; a.sin_port = htons(port); a.sin_addr.s_addr = htonl(INADDR_LOOPBACK);
+    if (::connect(fa, reinterpret_cast<sockaddr*>(&a), sizeof a) != 0) return "connect-failed";
+    sendAll(fa, "go");
+    std::this_thread::sleep_for(std::chrono::milliseconds(150));      // let the server run into would-block
+    long attemptsBefore; { std::lock_guard<std::mutex> g(WR.m); attemptsBefore = WR.attempts; }
+    // B: requests while A is stalled
+    long worst = 0; int answered = 0;
+    int fb = connectTo(port);
+    for (int i = 0; i < nB; ++i) {
+        auto t0 = std::chrono::steady_clock::now();
+        sendAll(fb, "GET /b HTTP/1.1\r\nHost: h\r\n\r\n");
+        std::string r = readResponse(fb, 1500);
+        long ms = static_cast<long>(std::chrono::duration_cast<std::chrono::milliseconds>(std::chrono::steady_clock::now() - t0).count());
+        if (statusOf(r) == 200) { ++answered; worst = std::max(worst, ms); } else worst = std::max(worst, 1500L);
+        std::this_thread::sleep_for(std::chrono::milliseconds(nB ? holdMs / nB : holdMs));
+    }
+    if (nB == 0) std::this_thread::sleep_for(std::chrono::milliseconds(holdMs));
+    ::close(fb);
+    long attemptsDuring; { std::lock_guard<std::mutex> g(WR.m); attemptsDuring = WR.attempts - attemptsBefore; }
+    // A starts reading
+    std::string got; std::vector<char> tmp(1 << 20);
+    for (;;) {
+        if (got.size() >= total) break;
+        pollfd p { fa, POLLIN, 0 };
+        if (::poll(&p, 1, 1500) <= 0) break;
+        ssize_t n = ::recv(fa, tmp.data(), tmp.size(), 0); if (n <= 0) break;
+        got.append(tmp.data(), static_cast<size_t>(n));
+    }
+    {
+        std::unique_lock<std::mutex> lk(WR.m);
+        WR.cv.wait_for(lk, std::chrono::milliseconds(500), [&] { if (!WR.issued) return false; for (auto& p : WR.promises) if (p == "pending") return false; return true; });
+    }
+    ::close(fa);
+    std::this_thread::sleep_for(std::chrono::milliseconds(20));
+    Pistache::Verif::writeHook = nullptr;
+    size_t firstDiff = std::string::npos, pos = 0;
+    for (size_t i = 0; i < ws.size() && firstDiff == std::string::npos; ++i)
+        for (size_t p = 0; p < ws[i].size; ++p, ++pos)
+            if (pos >= got.size() || static_cast<unsigned char>(got[pos]) != patternByte(i, p)) { firstDiff = pos; break; }
+    if (firstDiff == std::string::npos && got.size() != total) firstDiff = total;
+    std::lock_guard<std::mutex> g(WR.m);
+    WR.active = false; WR.holdBlocked = false;
+    std::string out = "banswered=" + std::to_string(answered) + " bworst=" + std::string(worst < 400 ? "fast" : "slow") + " attempts=" + (attemptsDuring <= 50 ? "few" : "many")
+        + " recv=" + std::to_string(got.size()) + " match=" + (firstDiff == std::string::npos ? "1" : "0:" + std::to_string(firstDiff)) + " promises=";
+    for (size_t i = 0; i < WR.promises.size(); ++i) { if (i) out += ","; out += WR.promises[i] + (WR.settles[i] > 1 ? "x" + std::to_string(WR.settles[i]) : ""); }
+    if (WR.promises.empty()) out += "-";
+    out += " raw_worst_ms=" + std::to_string(worst) + " raw_attempts=" + std::to_string(attemptsDuring);
+    return out;
+}
+
 } // namespace
 
 int main()
@@ -656,6 +854,8 @@ int main()
     ops["rtreq"] = opRtReq;
     ops["lim"] = opLim;
     ops["life"] = opLife;
+    ops["wr"] = opWr;
+    ops["stall"] = opStall;
     ops["to"] = opTimeout;
     ops["rtresp"] = opRtResp;
     int rc = runLoop(ops, 30);
